@@ -163,6 +163,10 @@ func (m *Manager) findBestEndpointLocked(ctx context.Context) (*activeEnpoint, e
 			return ae, nil
 		}
 	}
+	if firstEndpoint == nil {
+		// No provider returned any endpoint: keep the current one, if any.
+		return nil, errors.New("no endpoint available")
+	}
 	// Fallback to first endpoint with short
 	m.debugf("Falling back to first endpoint %s", firstEndpoint)
 	ae := m.newActiveEndpointLocked(firstEndpoint)
